@@ -5,8 +5,11 @@ For each seeded change: in a scratch worktree of /repo (outside /repo and /verif
  full test suite passes with the change; then store it under /verif/seeded/<label>/ with meta.json."""
 import json, os, re, shutil, subprocess, sys, time
 
-WT = "/tmp/confirm-wt"
-TARGET = "/tmp/confirm-target"
+# CONFIRM_WT / CONFIRM_TARGET: several instances may run side by side, each on its own scratch worktree;
+# CONFIRM_REUSE=1 keeps an existing (clean) worktree and its warm build output instead of recreating it
+WT = os.environ.get("CONFIRM_WT", "/tmp/confirm-wt")
+TARGET = os.environ.get("CONFIRM_TARGET", "/tmp/confirm-target")
+REUSE = bool(os.environ.get("CONFIRM_REUSE"))
 ENV = dict(os.environ, CARGO_TARGET_DIR=TARGET, CARGO_NET_OFFLINE="true")
 ENV.pop("RUST_LOG", None)
 
@@ -28,10 +31,11 @@ def test_names(diff):
     return names
 
 def main():
-    if os.path.exists(WT):
+    if os.path.exists(WT) and not REUSE:
         sh("git -C /repo worktree remove --force " + WT, cwd="/")
-    rc, out = sh("git -C /repo worktree add --detach %s HEAD" % WT, cwd="/")
-    assert rc == 0, out
+    if not os.path.exists(WT):
+        rc, out = sh("git -C /repo worktree add --detach %s HEAD" % WT, cwd="/")
+        assert rc == 0, out
     results = {}
     for arg in sys.argv[1:]:
         label, d = arg.split("=")
@@ -87,6 +91,7 @@ def main():
             json.dump(meta, open(os.path.join(dest, "meta.json"), "w"), indent=1)
         print(label, "CONFIRMED" if ok else "REJECTED", json.dumps(meta["ran"]), flush=True)
     sh("git checkout -- . && git clean -fdq")
-    sh("git -C /repo worktree remove --force " + WT, cwd="/")
+    if not REUSE:
+        sh("git -C /repo worktree remove --force " + WT, cwd="/")
 
 main()
